@@ -672,9 +672,9 @@ func main() {
 		k        int
 		cap      int
 	}
-	jobs := []job{{4, 1, 3, 1, 300000}, {4, 2, 3, 1, 300000}}
+	jobs := []job{{4, 2, 3, 1, 300000}, {4, 3, 3, 1, 300000}} // height 1: operator 2 leads round 1, operator 3 leads round 2
 	if r.Thorough() {
-		jobs = []job{{4, 1, 3, 1, 6000000}, {4, 2, 3, 1, 6000000}, {4, 3, 3, 1, 3000000}, {7, 1, 2, 0, 2000000}, {7, 2, 2, 0, 2000000}}
+		jobs = []job{{4, 2, 3, 1, 6000000}, {4, 3, 3, 1, 6000000}, {4, 4, 3, 1, 3000000}, {4, 1, 3, 1, 3000000}, {7, 2, 2, 0, 2000000}, {7, 3, 2, 0, 2000000}}
 	}
 	if r.Replay != "" {
 		ev.Fatal("replay: re-run the check; the recorded path names the letters to apply from the start state")
